@@ -78,12 +78,12 @@ def _recon(dp, kernel, **kw):
     return dp._corrected_stack
 
 
-def batch_claim(kernel, mask_name, up=1, aberr=None, lowpass=None):
+def batch_claim(kernel, mask_name, up=1, aberr=None, lowpass=None, scan=(4, 4), rotation=0.0):
     mask = _mask(MASKS[mask_name])
 
     def claim(I):
         with _patched(I):
-            dp, x = _make(I, mask, aberr=aberr)
+            dp, x = _make(I, mask, aberr=aberr, scan=scan, rotation=rotation)
             nbf = int(mask.sum())
             kw = dict(upsampling_factor=up, parallax_flip_phase=False, q_lowpass=lowpass)
             full = _recon(dp, kernel, max_batch_size=nbf, **kw)
@@ -136,12 +136,31 @@ def submask_claim(kernel, mask_name, split):
     return claim
 
 
-def parallax_plain_claim(mask_name):
+def alias_claim(alias, canonical, mask_name):
+    """every documented spelling of a kernel gives the reconstruction of its canonical name"""
     mask = _mask(MASKS[mask_name])
 
     def claim(I):
         with _patched(I):
-            dp, x = _make(I, mask)
+            dp, x = _make(I, mask, aberr={"C10": 50.0})
+            kw = dict(parallax_flip_phase=False, max_batch_size=2)
+            want = _recon(dp, canonical, **kw)
+            want = want.clone() if hasattr(want, "clone") else want
+            got = _recon(dp, alias, **kw)
+            return [Rel("alias_equals_canonical_kernel", got, want, tol=TOL, ntol=1e-5)]
+    return claim
+
+
+ALIASES = {"single-sideband": "ssb", "acbf": "ssb", "aberration-corrected-bright-field": "ssb", "optimum-bright-field": "obf",
+           "matched-filter": "mf", "parallax": "prlx", "tcbf": "prlx", "tilt-corrected-bright-field": "prlx", "center-of-mass": "icom"}
+
+
+def parallax_plain_claim(mask_name, scan=(4, 4)):
+    mask = _mask(MASKS[mask_name])
+
+    def claim(I):
+        with _patched(I):
+            dp, x = _make(I, mask, scan=scan)
             out = _recon(dp, "prlx", parallax_flip_phase=False).sum(dim=0)
             nbf = int(mask.sum())
             w = _bf_weight(dp, mask)
@@ -213,9 +232,19 @@ def cases(tier):
         out.append((f"submasks[{k};4px;split 1+3]", submask_claim(k, "4px", (3,)), L))
     out.append(("parallax_plain[5px]", parallax_plain_claim("5px"), L))
     out.append(("parallax_plain[3px]", parallax_plain_claim("3px"), L))
+    # non-square scans (exact DFT lengths 4 and 2)
+    out.append(("parallax_plain[4px;scan 4x2]", parallax_plain_claim("4px", scan=(4, 2)), L))
+    out.append(("batch[obf;4px;scan 2x4]", batch_claim("obf", "4px", scan=(2, 4)), L))
+    out.append(("batch[ssb;3px;scan 4x2;defocus;rotation 0.2]", batch_claim("ssb", "3px", scan=(4, 2), aberr={"C10": 60.0}, rotation=0.2), L))
+    for alias, canonical in sorted(ALIASES.items())[: (3 if tier == "quick" else None)]:
+        out.append((f"alias[{alias}]", alias_claim(alias, canonical, "3px"), L))
     if tier != "quick":
         for k in KERNELS:
             out.append((f"batch[{k};4px;upsampling 2]", batch_claim(k, "4px", up=2), L))
+            out.append((f"batch[{k};3px;scan 2x4]", batch_claim(k, "3px", scan=(2, 4)), L))
+            out.append((f"batch[{k};4px;highpass+lowpass]", batch_claim(k, "4px", lowpass=0.09), L))
+        out.append(("batch[mf;5px;defocus+astigmatism;rotation 0.4]", batch_claim("mf", "5px", aberr={"C10": 70.0, "C12": 15.0, "phi12": 0.7}, rotation=0.4), L))
+        out.append(("parallax_plain[5px;scan 2x4]", parallax_plain_claim("5px", scan=(2, 4)), L))
     return out
 
 
@@ -227,12 +256,12 @@ def run(check, tier):
     check.add_functions("DirectPtychography._preprocess", "_return_bf_context", "_return_upsampled_qgrid", "_return_kernel_contributions",
                         "_normalize_kernel_name", "reconstruct", "_return_lateral_shifts", "SimpleBatcher (unshuffled)", "complex_probe.gamma_factor / evaluate_probe / "
                         "spatial_frequencies / aberration_surface* (executed concretely by the real code: they do not depend on the stack)")
-    check.bounds.update(scan="4x4 (exact DFT)", detector="4x4 with bright-field masks of 3, 4 and 5 pixels", kernels="ssb, obf, mf, prlx, icom",
+    check.bounds.update(scan="4x4, 4x2, 2x4 (exact DFT lengths)", detector="4x4 with bright-field masks of 3, 4 and 5 pixels", kernels="ssb, obf, mf, prlx, icom",
                         batch_sizes="1..num_bf", symbolic="every bright-field stack value in [-1, 1] (48-160 symbols per claim)",
                         aberrations="none, defocus, defocus + astigmatism", upsampling="1 (thorough: 2 for batch invariance)")
     check.assumptions += ["real arithmetic on the stack; probe-side constants are the float32 values the real code computes, hence equalities are "
                           f"asked with tolerance {TOL} for stack values in [-1, 1]", "parallax_flip_phase=False (sign flipping is outside the analytic claims)"]
-    check.outside += ["upsampling 3, scan shapes beyond 4x4, noise / rng, optimize_hyperparameters", "kernel aliases "
-                      "beyond the five canonical names (mapping is a dictionary lookup)"]
+    check.outside += ["upsampling 3, scan shapes beyond 4x4 / 4x2 / 2x4, noise / rng, optimize_hyperparameters", "kernel aliases "
+                      "are compared with their canonical name on one configuration each (quick: 3 of the 9 spellings)", "odd scan sizes (float DFT constants)"]
     decide_many(check, [(n, c, dict(o, key=n.split("[")[0])) for n, c, o in cases(tier)],
                 timeout_s=120 if tier == "quick" else 600, validate=1, hard_timeout_s=500 if tier == "quick" else 2400)
